@@ -362,6 +362,14 @@ theorem C19_build_stuck_iff (eps : List Ep) (rf : Nat) (hh : ∀ e ∈ eps, e.ha
         · obtain ⟨secs, h⟩ := h; rw [hst] at h; cases h
         · obtain ⟨_, h⟩ := h; cases h
 
+-- non-vacuity of C19_stuck_iff / C19_build_stuck_iff: the F19 ring meets every hypothesis, and the
+-- two sides of the equivalence are the interesting ones on it
+example : AzConsistent f19Ring := by unfold AzConsistent; decide
+example : ([0, 1] : List Nat).Nodup ∧ (∀ s ∈ f19Ring, s.az ∈ [0, 1]) ∧ (∃ pre, f19Ring = pre ++ f19Ring) :=
+  ⟨by decide, by decide, ⟨[], rfl⟩⟩
+example : replicasFor true f19Ring [0, 1] 4 f19Ring = .stuck ∧ canBalance ([0, 1].map (zsize f19Ring)) 4 = false := by
+  decide
+example : (∀ e ∈ f19Eps, e.hashes ≠ []) ∧ zoneSizesOf f19Eps = [1, 3] := by decide
 -- the F19 layout: zone sizes 1 and 3, rf 4 exceeds the capacity 1 + 2; rf 3 fits
 example : canBalance [1, 3] 4 = false := by decide
 example : canBalance [1, 3] 3 = true := by decide
